@@ -29,6 +29,10 @@ def sh(cmd, cwd=None, env=None, timeout=3000):
     return p.returncode, p.stdout.decode(errors="replace")
 
 
+VSEEDS = [a.split("=")[1].split(",") for a in sys.argv if a.startswith("--vseeds=")]
+VSEEDS = VSEEDS[0] if VSEEDS else [os.environ.get("VERIF_SEED", "1")]
+
+
 def one(seed_root, ident, props, keep_checks):
     d = os.path.join(seed_root, ident)
     tag = ident.replace("/", "_")
@@ -58,9 +62,12 @@ def one(seed_root, ident, props, keep_checks):
         sh(["cp", "-a", VERIF, vcopy])
         shutil.rmtree(os.path.join(vcopy, ".git"), ignore_errors=True)
         det = {}
-        for p in props:
-            rc, out = sh(["./check", p, "--tier", "quick"], cwd=vcopy, env={"VERIF_REPO": wt}, timeout=3000)
+        for p0 in [(p, vs) for p in props for vs in VSEEDS]:
+            p, vs = p0
+            rc, out = sh(["./check", p, "--tier", "quick"], cwd=vcopy, env={"VERIF_REPO": wt, "VERIF_SEED": vs}, timeout=3000)
             lines = [l for l in out.splitlines() if l.startswith("VIOLATION")]
+            if len(VSEEDS) > 1:
+                p = "%s@%s" % (p, vs)
             det[p] = {"rc": rc, "violations": lines[:3]}
             if rc == 1 and keep_checks:
                 for l in lines[:1]:
